@@ -154,7 +154,8 @@ def finish(mod, prop, tier, seed, m, wall, write_evidence, quiet) -> int:
         elif key == "__distinct__":
             got = m["distinct"]
         elif key.startswith("hits:"):
-            got = m["anchor_hits"].get(key[5:], 0)
+            nm = key[5:]
+            got = sum(v for k, v in m["anchor_hits"].items() if k == nm or k.endswith(":" + nm) or k.endswith("." + nm))
         else:
             got = m["tallies"].get(key, 0)
         if got < mn:
